@@ -74,6 +74,13 @@ func gen(t *rapid.T) Case {
 			s.Client.Ops = append(s.Client.Ops, prog.COp{Op: "sleep", D: 1e9})
 		} else {
 			s.CancelNS = -1
+			if rapid.Bool().Draw(t, "deadlineLater") {
+				// the context also has a deadline, which passes AFTER the
+				// cancellation and before the first operation: the call was
+				// cancelled, and that is what every failure must say
+				s.DeadlineNS = 1e6
+				s.Client.Ops = append(s.Client.Ops, prog.COp{Op: "sleep", D: 1e9})
+			}
 		}
 		// discipline: the request side is started before the response side is used
 		if rapid.Bool().Draw(t, "startWithSend") {
